@@ -173,20 +173,20 @@ def rounding (fn : String) (args : List String) : Option (String × String × St
       let x ← parseDec xs
       let q := decRat x
       -- D1605: `float(number) / 2.` underflows to 0 for the smallest subnormal double
-      let kf := if q != 0 && (if q < 0 then -q else q) ≤ decRat ⟨false, 5, -324⟩ then "D1605" else ""
+      let kf := if quotientUnderflows q 2 then "D1605" else ""
       pure (resWire rvalWire (EVEN x), intW (Spec.C16.even q), kf)
   | "CEILING", [xs, ss] => do
       let x ← parseDec xs; let s ← parseDec ss
       let xq := decRat x; let sq := decRat s
       let spec := if Spec.C16.outside .CEILING [xq, sq] then "ERR" else ratW (Spec.C16.ceiling xq sq)
       -- D37: with a non-integer significance the binary float quotient / product decides
-      let kf := if sq.den != 1 then "D37" else ""
+      let kf := if sq != 0 && quotientUnderflows xq sq then "D1605" else if sq.den != 1 then "D37" else ""
       pure (resWire rvalWire (CEILING x s), spec, kf)
   | "FLOOR", [xs, ss] => do
       let x ← parseDec xs; let s ← parseDec ss
       let xq := decRat x; let sq := decRat s
       let spec := if Spec.C16.outside .FLOOR [xq, sq] then "ERR" else ratW (Spec.C16.floor xq sq)
-      let kf := if sq.den != 1 then "D37" else ""
+      let kf := if sq != 0 && quotientUnderflows xq sq then "D1605" else if sq.den != 1 then "D37" else ""
       pure (resWire rvalWire (FLOOR x s), spec, kf)
   | _, _ => none
 
